@@ -164,6 +164,13 @@ def run_case(case):
             if set(Gx.edges) != exp_edges:
                 fam("networkx").append(dict(clause="networkx_edges_not_the_consumed_relations", path=label, episode=e, extra=sorted(set(Gx.edges) - exp_edges)[:4],
                                             missing=sorted(exp_edges - set(Gx.edges))[:4]))
+            for k_, ed_ in ge.edges.items():
+                for a_, b_, t_ in zip(ed_.seq_out, ed_.seq_in, ed_.ts_recv):
+                    if a_ >= 0 and b_ >= 0:
+                        dd_ = Gx.edges.get((f"{k_[0]}_{int(a_)}", f"{k_[1]}_{int(b_)}"))
+                        if dd_ is not None and dd_.get("ts_recv") != t_:
+                            fam("networkx").append(dict(clause="networkx_edge_receive_time_not_the_messages", path=label, edge=(f"{k_[0]}_{int(a_)}", f"{k_[1]}_{int(b_)}"), got=float(dd_.get("ts_recv")), expected=float(t_)))
+                            break
             for n, v in ge.vertices.items():
                 for s, a, b in zip(v.seq, v.ts_start, v.ts_end):
                     if s >= 0:
@@ -171,6 +178,30 @@ def run_case(case):
                         if d is not None and (d["ts_start"] != a or d["ts_end"] != b or d["seq"] != s or d["kind"] != n):
                             fam("networkx").append(dict(clause="networkx_vertex_attributes", vertex=f"{n}_{int(s)}"))
                             break
+    # a graph in which a message was sent but never received (seq_in = -1 in the MIDDLE of an edge array, allowed by the Edge docstring)
+    g_lost = C.npz(singles[-1])
+    k_l = rnd.choice(sorted(g_lost.edges))
+    ed_l = g_lost.edges[k_l]
+    if len(ed_l.seq_in) >= 3:
+        j_l = rnd.randrange(1, len(ed_l.seq_in) - 1)
+        si_l = onp.array(ed_l.seq_in)
+        si_l[j_l] = -1
+        g_lost = g_lost.replace(edges={**g_lost.edges, k_l: ed_l.replace(seq_in=si_l)})
+        try:
+            Gl = to_networkx_graph(g_lost, nodes=nodes, validate=True)
+            counters["networkx_graphs_checked"] += 1
+            for kk_, ee_ in g_lost.edges.items():
+                for a_, b_, t_ in zip(ee_.seq_out, ee_.seq_in, ee_.ts_recv):
+                    u_, v_ = f"{kk_[0]}_{int(a_)}", f"{kk_[1]}_{int(b_)}"
+                    if a_ >= 0 and b_ >= 0:
+                        dd_ = Gl.edges.get((u_, v_))
+                        if dd_ is None or dd_.get("ts_recv") != t_:
+                            fam("networkx").append(dict(clause="networkx_edge_wrong_after_lost_message", edge=(u_, v_), got=None if dd_ is None else float(dd_.get("ts_recv")), expected=float(t_), lost_index=j_l))
+                            break
+            if (f"{k_l[0]}_{int(ed_l.seq_out[j_l])}", f"{k_l[1]}_{int(ed_l.seq_in[j_l])}") in Gl.edges and int(ed_l.seq_in[j_l]) not in [int(x) for i_, x in enumerate(si_l) if i_ != j_l and ed_l.seq_out[i_] == ed_l.seq_out[j_l]]:
+                fam("networkx").append(dict(clause="networkx_edge_for_never_received_message"))
+        except Exception as ex_:
+            fam("networkx").append(dict(clause="to_networkx_graph_raises", path="lost_message", error=f"{type(ex_).__name__}: {ex_}"[:160]))
     # ---------- 4. filters
     names = list(nodes)
     subsets = [c for r_ in range(1, len(names) + 1) for c in itertools.combinations(names, r_)]
